@@ -713,7 +713,11 @@ the `write_end` of a container nested in the array part clears it.  The call lis
 `a, [, 1, mixed, b = c, [ x ], d = e, f, g, ]` describes the array part `b=c {x} d=e f g`; behind the nested
 container `write_operator` takes its object branch and turns the writer to object mode, so the bare
 elements `f`, `g` are written `f=g` and read back as `f`, `Operator(=)`, `g`.  Root cause: the flag would
-have to be kept per depth (a mixed-mode stack restored by `write_end`). -/
+have to be kept per depth (a mixed-mode stack restored by `write_end`).
+Formally against the positive theorem: the calls are `dcallsF` of the document `WriterExamples.kModeLost`
+(`a={ 1 b=c { x } d=e f g }`, 3rd conjunct), the tape of the written bytes is NOT `dtapeF kModeLost` — the
+conclusion `C15_parse_back_full` would give — (4th), and `kModeLost` is not `CallsOKF` (5th): the witness sits
+exactly in the excluded set and the exclusion is needed. -/
 theorem C15_known_mixed_mode_lost_after_container :
     (run [.unquoted [97], .arrayStart, .unquoted [49], .mixedMode, .unquoted [98], .operator .eq, .unquoted [99],
         .arrayStart, .unquoted [120], .end, .unquoted [100], .operator .eq, .unquoted [101],
@@ -725,8 +729,27 @@ theorem C15_known_mixed_mode_lost_after_container :
       .ok [.unquoted ⟨37, [97]⟩, .array 16 true, .unquoted ⟨31, [49]⟩, .mixedContainer, .unquoted ⟨29, [98]⟩,
            .operator .eq, .unquoted ⟨27, [99]⟩, .array 9 false, .unquoted ⟨19, [120]⟩, .endTok 7,
            .unquoted ⟨11, [100]⟩, .operator .eq, .unquoted ⟨9, [101]⟩,
-           .unquoted ⟨5, [102]⟩, .operator .eq, .unquoted ⟨3, [103]⟩, .endTok 1] false := by
-  refine ⟨by decide +kernel, by decide +kernel⟩
+           .unquoted ⟨5, [102]⟩, .operator .eq, .unquoted ⟨3, [103]⟩, .endTok 1] false ∧
+    -- the calls are the call list of the document `kModeLost` …
+    dcallsF WriterExamples.kModeLost =
+      [.unquoted [97], .arrayStart, .unquoted [49], .mixedMode, .unquoted [98], .operator .eq, .unquoted [99],
+        .arrayStart, .unquoted [120], .end, .unquoted [100], .operator .eq, .unquoted [101],
+        .unquoted [102], .unquoted [103], .end] ∧
+    -- … whose content is NOT what the written bytes parse to (the conclusion `C15_parse_back_full` would give) …
+    (∀ T, TextTape.parse (run (dcallsF WriterExamples.kModeLost) (State.init 32 2)).1.out = .ok T false →
+      T.map TextTape.Tok.erase ≠ TextTape.dtapeF WriterExamples.kModeLost 0) ∧
+    -- … and which is outside `CallsOKF`: exactly the excluded set
+    ¬ CallsOKF WriterExamples.kModeLost := by
+  refine ⟨by decide +kernel, by decide +kernel, by decide +kernel, ?_, WriterExamples.kModeLost_not_callsOK⟩
+  intro T hT
+  have hp : TextTape.parse (run (dcallsF WriterExamples.kModeLost) (State.init 32 2)).1.out =
+      .ok [.unquoted ⟨37, [97]⟩, .array 16 true, .unquoted ⟨31, [49]⟩, .mixedContainer, .unquoted ⟨29, [98]⟩,
+           .operator .eq, .unquoted ⟨27, [99]⟩, .array 9 false, .unquoted ⟨19, [120]⟩, .endTok 7,
+           .unquoted ⟨11, [100]⟩, .operator .eq, .unquoted ⟨9, [101]⟩,
+           .unquoted ⟨5, [102]⟩, .operator .eq, .unquoted ⟨3, [103]⟩, .endTok 1] false := by decide +kernel
+  rw [hp] at hT
+  cases hT
+  decide +kernel
 
 /-- … without the group `d = e` behind the container the same elements come out as elements -/
 example : (run [.unquoted [97], .arrayStart, .unquoted [49], .mixedMode, .unquoted [98], .operator .eq, .unquoted [99],
@@ -740,7 +763,12 @@ example : (run [.unquoted [97], .arrayStart, .unquoted [49], .mixedMode, .unquot
 while the mixed mode of the enclosing array is on, and `write_end` is what clears the flag, so
 `write_operator(>)` inside the object takes the mixed branch: it writes `>` bare and leaves the machine waiting
 for `=`, the value's preamble adds it — `c>=d`, read back as `c`, `Operator(>=)`, `d`.  Same root cause: one
-flag instead of a per-depth stack. -/
+flag instead of a per-depth stack.
+Formally against the positive theorem: the calls are `dcallsF` of `WriterExamples.kStaleOperator`
+(`a={ 1 b={ c>d } }`, 3rd conjunct), the tape of the written bytes is NOT `dtapeF kStaleOperator` (4th), and the
+hypothesis of `C15_parse_back_full` that fails is `FPlainF` (5th: the window conjunct `w = true → o = .eq`, the same
+one as in `C14_known_mixed_nested_operator_breaks`); the document IS `CallsOKF` (6th), so `FPlainF` is what
+excludes it. -/
 theorem C15_known_operator_under_stale_mixed_mode :
     (run [.unquoted [97], .arrayStart, .unquoted [49], .mixedMode, .unquoted [98], .operator .eq,
         .objectStart, .unquoted [99], .operator .gt, .unquoted [100], .end, .end] (State.init 32 2)).1.out =
@@ -749,8 +777,26 @@ theorem C15_known_operator_under_stale_mixed_mode :
         10, 125] =
       .ok [.unquoted ⟨26, [97]⟩, .array 11 true, .unquoted ⟨20, [49]⟩, .mixedContainer, .unquoted ⟨18, [98]⟩,
            .operator .eq, .object 10 false, .unquoted ⟨10, [99]⟩, .operator .ge, .unquoted ⟨7, [100]⟩, .endTok 6,
-           .endTok 1] false := by
-  refine ⟨by decide +kernel, by decide +kernel⟩
+           .endTok 1] false ∧
+    -- the calls are the call list of the document `kStaleOperator` …
+    dcallsF WriterExamples.kStaleOperator =
+      [.unquoted [97], .arrayStart, .unquoted [49], .mixedMode, .unquoted [98], .operator .eq,
+        .objectStart, .unquoted [99], .operator .gt, .unquoted [100], .end, .end] ∧
+    -- … whose content is NOT what the written bytes parse to …
+    (∀ T, TextTape.parse (run (dcallsF WriterExamples.kStaleOperator) (State.init 32 2)).1.out = .ok T false →
+      T.map TextTape.Tok.erase ≠ TextTape.dtapeF WriterExamples.kStaleOperator 0) ∧
+    -- … and which is outside `FPlainF` (the hypothesis of `C15_parse_back_full` that fails here; it IS `CallsOKF`)
+    ¬ FPlainF false WriterExamples.kStaleOperator ∧ CallsOKF WriterExamples.kStaleOperator := by
+  refine ⟨by decide +kernel, by decide +kernel, by decide +kernel, ?_, WriterExamples.kStaleOperator_not_plain, ?_⟩
+  · intro T hT
+    have hp : TextTape.parse (run (dcallsF WriterExamples.kStaleOperator) (State.init 32 2)).1.out =
+        .ok [.unquoted ⟨26, [97]⟩, .array 11 true, .unquoted ⟨20, [49]⟩, .mixedContainer, .unquoted ⟨18, [98]⟩,
+             .operator .eq, .object 10 false, .unquoted ⟨10, [99]⟩, .operator .ge, .unquoted ⟨7, [100]⟩, .endTok 6,
+             .endTok 1] false := by decide +kernel
+    rw [hp] at hT
+    cases hT
+    decide +kernel
+  · simp [WriterExamples.kStaleOperator, CallsOKF, CallsOKV, CallsOKFirst, CallsOKVs, CallsOKI]
 
 /-- … outside an array part the same object is written `c > d` -/
 example : (run [.unquoted [98], .objectStart, .unquoted [99], .operator .gt, .unquoted [100], .end]
